@@ -4,6 +4,8 @@ package jlib
 
 import (
 	"time"
+
+	"github.com/blues/jsonata-go/jtypes"
 )
 
 // ---------------------------------------------------------------------------------------------
@@ -50,5 +52,54 @@ func VerifH_C19_TimeZone() {
 		}
 		_, off := time.Unix(0, 0).In(loc).Zone()
 		verifAssert(off == want, "timezone-offset")
+	}
+}
+
+// VerifH_C19_TextRoundTrip: $toMillis($fromMillis(ms, picture, tz), picture) = ms through the rendered
+// text, for boundary instants of the claimed span, offsets including sub-hour negative ones, the
+// default picture and pictures built from the invertible components. Instants are a menu (calendar
+// arithmetic is outside what the solvers decide, see DESIGN 0.6); time.Parse is interpreted from its
+// SSA like the rest of the code.
+func VerifH_C19_TextRoundTrip() {
+	instants := []int64{c19MinMS, c19MinMS + 1, -1, 0, 1, 999, 1000, 86399999, 86400000, -86400000, 951782400000 /* 2000-02-29 */, 1522161458123,
+		4102444799999 /* 2099-12-31T23:59:59.999 */, -2208988800000 /* 1900-01-01 */, 9223372036854 /* past 2262 */, -9223372036855 /* before 1678 */, c19MaxMS - 999, c19MaxMS}
+	offsets := []string{"", "+0000", "-0030", "+0530", "+1400", "-1400", "-0001", "+0959"}
+	offMin := []int64{0, 0, -30, 330, 840, -840, -1, 599}
+	type pc struct {
+		pic   string
+		grain int64 // the picture represents instants that are multiples of this many ms
+		utc   bool  // no zone in the picture: only UTC renderings are invertible
+	}
+	pics := []pc{{"", 1, false}, {"[Y0001]-[M01]-[D01]T[H01]:[m01]:[s01].[f001][Z01:01]", 1, false}, {"[Y0001]-[M01]-[D01]T[H01]:[m01]:[s01][Z0101]", 1000, false},
+		{"[Y0001]-[M01]-[D01]T[H01]:[m01]:[s01]", 1000, true}, {"[Y0001]-[M01]-[D01]", 86400000, true}, {"[D01]/[M01]/[Y0001] [H01]:[m01]", 60000, true}}
+	ms := instants[verifChoose(len(instants))]
+	oi := verifChoose(len(offsets))
+	off := offsets[oi]
+	p := pics[verifChoose(len(pics))]
+	if p.utc {
+		off, oi = "", 0
+	}
+	ms -= ((ms % p.grain) + p.grain) % p.grain
+	if ms < c19MinMS {
+		ms += p.grain
+	}
+	if local := ms + offMin[oi]*60000; local < c19MinMS || local > c19MaxMS {
+		return // the local date has a year outside 1000..9999, which a four-digit year cannot represent
+	}
+	opt := func(v string) jtypes.OptionalString {
+		if v == "" {
+			return jtypes.OptionalString{}
+		}
+		return jtypes.NewOptionalString(v)
+	}
+	text, err := FromMillis(ms, opt(p.pic), opt(off))
+	verifAssert(err == nil, "fromMillis-renders")
+	if err != nil {
+		return
+	}
+	back, err := ToMillis(text, opt(p.pic), jtypes.OptionalString{})
+	verifAssert(err == nil, "toMillis-parses-what-fromMillis-rendered")
+	if err == nil {
+		verifAssert(back == ms, "toMillis-inverts-fromMillis-through-text")
 	}
 }
